@@ -2577,7 +2577,8 @@ class _EncloseRun:
 
     def counter_value(self, c: str) -> int:
         if c not in self.count_match:
-            self.count_match[c] = sum(1 for e in self.stack + self.popped_entries if e.matches)
+            # the counter is incremented where an element is pushed: the root is not counted
+            self.count_match[c] = sum(1 for e in self.stack + self.popped_entries if e.matches and e is not self.root)
         return self.count_match[c]
 
     def counter_key(self, k: ast.expr):
@@ -2649,6 +2650,10 @@ class _EncloseRun:
                 if -len(seq) <= i < len(seq):
                     return seq[i]
                 raise _Stops("IndexError: the open-element stack is indexed out of range")
+        if isinstance(e, ast.NamedExpr) and isinstance(e.target, ast.Name):
+            v = self.ev(e.value)
+            self.env[e.target.id] = v  # `(x := expr)`: bind and yield the value
+            return v
         if isinstance(e, (ast.GeneratorExp, ast.ListComp)):
             return self.comprehension(e, 0)
         if isinstance(e, ast.Tuple):
@@ -3961,7 +3966,7 @@ def mutants(corpus: Corpus):
         if dec_all:
             text = f"if not self.open_names.get({ep}):\n            return\n        while True:\n            closed = self.stack.pop()\n            self.open_names[closed.name] -= 1\n            if closed.name == {ep}:\n                break"
         else:
-            text = f"if not self.open_names.get({ep}):\n            return\n        while self.stack.pop().name != {ep}:\n            pass\n        self.open_names[{ep}] -= 1"
+            text = f"if not self.open_names.get({ep}):\n            return\n        while (closed := self.stack.pop()).name != {ep}:\n            pass\n        closed.closed = True\n        self.open_names[{ep}] -= 1"
         edits.append((body[0], text))
         for x in body[1:]:
             edits.append((x, "pass"))
